@@ -67,7 +67,8 @@ class Gen(object):
       return [['"' + body + '"', 's']]
     if k < 0.85:
       body = ''.join(pieces).replace('\\', '').replace("'", r.choice(["\\'", ''])) if r.random() < 0.5 else \
-          ''.join(p for p in pieces if p not in ("'", '\\')) + r.choice(['', '\\\\', '\\n', "\\'", '\\(', '\\]'])
+          ''.join(p for p in pieces if p not in ("'", '\\')) + r.choice(['', '\\\\', '\\n', "\\'", '\\(', '\\]', '\\x41', '\\u00e9',
+                                                                        '\\x41z', 'a\\u00e9b', '\\t'])
       self.features.add("string'")
       return [["'" + body + "'", 's']]
     body = ''.join(pieces).replace('\\', '') + r.choice(['', '\n', ' " '])
